@@ -517,7 +517,62 @@ func c09Count(c *Ctx) {
 			okInc = false
 		}
 	})
-	c.Check("C09.R4", funcKey(pf)+":count-on-success", pf.Pos(), okInc && nInc == 1, "the client is counted only when it was created successfully", "the ping-pong pool counts a client that was not created (or counts it on several paths)")
+	if okInc && nInc == 1 {
+		c.Pass("C09.R4", funcKey(pf)+":count-on-success", pf.Pos(), "the client is counted only when it was created successfully")
+		return
+	}
+	// alternative design: reserve the slot before dialing and give it back on every failure
+	why := c09ReserveBeforeDial(c, pf)
+	c.Check("C09.R4", funcKey(pf)+":count-on-success", pf.Pos(), why == "", "the slot is reserved before dialing and released on refusal, connect failure and connect timeout", "the ping-pong pool counts a client that was not created (or counts it on several paths)"+why)
+}
+
+// c09ReserveBeforeDial: "" when GetActiveClient reserves one slot before newActiveClient and every way of not getting a
+// client gives it back: the refusal path in the function itself, and both connect-failure events in the client's OnEvent.
+func c09ReserveBeforeDial(c *Ctx, pf *ssa.Function) string {
+	isCount := func(in ssa.Instruction, name string) bool {
+		ci, ok := in.(*ssa.Call)
+		if !ok || methodName(ci.Common()) != name {
+			return false
+		}
+		_, f, _, okf := fieldAddrInfo(recvOf(ci.Common()))
+		return okf && f == "totalClientCount"
+	}
+	incs := instrsWhere(pf, func(in ssa.Instruction) bool { return isCount(in, "Inc") })
+	dials := callsIn(pf, false, func(cc *ssa.CallCommon) bool { return methodName(cc) == "newActiveClient" })
+	if len(incs) != 1 || len(dials) != 1 || !instrDominates(incs[0], dials[0].Instr) {
+		return ": not a single reservation dominating the dial"
+	}
+	if bad := existsPath(pf, incs[0], isReturn, func(in ssa.Instruction) bool { return isCount(in, "Dec") || in == dials[0].Instr }); bad != nil {
+		return ": the reserved slot is kept on a refusal path"
+	}
+	ev := c.M("pkg/stream/xprotocol", "activeClientPingPong", "OnEvent")
+	if ev == nil {
+		return ": activeClientPingPong.OnEvent not found"
+	}
+	covered := map[string]bool{}
+	for _, in := range instrsWhere(ev, func(in ssa.Instruction) bool { return isCount(in, "Dec") }) {
+		for _, g := range guardsAt(in.Block()) {
+			if !g.True {
+				continue
+			}
+			switch x := g.Cond.(type) {
+			case *ssa.BinOp:
+				if k, ok := x.Y.(*ssa.Const); ok && x.Op == token.EQL {
+					if sv, ok := constString(k); ok {
+						covered[sv] = true
+					}
+				}
+			case *ssa.Call:
+				if methodName(x.Common()) == "ConnectFailure" {
+					covered["ConnectFailed"], covered["ConnectTimeout"] = true, true
+				}
+			}
+		}
+	}
+	if !covered["ConnectFailed"] || !covered["ConnectTimeout"] {
+		return ": the slot reserved before dialing is not released on every connect failure event (ConnectFailed and ConnectTimeout)"
+	}
+	return ""
 }
 
 // R6: closing a client's connection delivers the close event synchronously to the pool's handler, which locks
